@@ -3,7 +3,7 @@
 followed by all 19 quick checks on each copy.  Every check must stay silent (rc 0) on every copy: a non-zero rc is a defect
 of the checks (brittleness against the spelling of the code), never of the code.
 
-    tools/mechanical.py [kind ...]        kinds: unparse locals invert splitand methods attrs flags whiletrue guard ternary augassign format percent continue elsereturn flipcmp hoist match   (default: all)
+    tools/mechanical.py [kind ...]        kinds: unparse locals invert splitand methods attrs flags whiletrue guard ternary augassign format percent continue elsereturn flipcmp hoist match walrus tryelse bindmethods   (default: all)
 
 Not a registered check: it exercises the checks, it decides no property."""
 import ast, os, shutil, subprocess, sys, tempfile, builtins
@@ -267,6 +267,118 @@ class ToMatch(ast.NodeTransformer):
         return ast.copy_location(ast.Match(subject=chain[0][0].left, cases=cases), n)
 
 
+
+class Walrus(ast.NodeTransformer):
+    """x = CALL(...)  /  if <test whose leading operand is x>:   ->   if <test with (x := CALL(...))>:"""
+
+    def _block(self, stmts):
+        out = []
+        i = 0
+        while i < len(stmts):
+            s = stmts[i]
+            nxt = stmts[i + 1] if i + 1 < len(stmts) else None
+            if isinstance(s, ast.Assign) and len(s.targets) == 1 and isinstance(s.targets[0], ast.Name) and isinstance(s.value, ast.Call) and isinstance(nxt, ast.If):
+                x = s.targets[0].id
+                t = nxt.test
+                lead = t
+                path = []
+                while True:
+                    if isinstance(lead, ast.Compare):
+                        path.append((lead, "left")); lead = lead.left
+                    elif isinstance(lead, ast.UnaryOp) and isinstance(lead.op, ast.Not):
+                        path.append((lead, "operand")); lead = lead.operand
+                    elif isinstance(lead, ast.BoolOp):
+                        path.append((lead, 0)); lead = lead.values[0]
+                    else:
+                        break
+                uses_in_test = sum(1 for n in ast.walk(t) if isinstance(n, ast.Name) and n.id == x)
+                if isinstance(lead, ast.Name) and lead.id == x and uses_in_test == 1:
+                    w = ast.NamedExpr(target=ast.Name(id=x, ctx=ast.Store()), value=s.value)
+                    if not path:
+                        nxt.test = w
+                    else:
+                        par, fld = path[-1]
+                        if fld == 0:
+                            par.values[0] = w
+                        else:
+                            setattr(par, fld, w)
+                    out.append(self.visit(nxt))
+                    i += 2
+                    continue
+            out.append(self.visit(s))
+            i += 1
+        return out
+
+    def generic_visit(self, node):
+        for fld in ("body", "orelse", "finalbody"):
+            v = getattr(node, fld, None)
+            if isinstance(v, list) and v and isinstance(v[0], ast.stmt):
+                setattr(node, fld, self._block(v))
+        for h in getattr(node, "handlers", []) or []:
+            h.body = self._block(h.body)
+        return node
+
+
+class TryElse(ast.NodeTransformer):
+    """try: CALL; x.attr = CONST  except E: ...   ->   try: CALL  except E: ...  else: x.attr = CONST
+    (trailing stores of constants into attributes of locals; handlers that could catch what such a store raises are left alone)"""
+
+    def visit_Try(self, n):
+        self.generic_visit(n)
+        if n.orelse or not n.handlers or len(n.body) < 2:
+            return n
+        names = set()
+        for h in n.handlers:
+            if h.type is None:
+                return n
+            for t in (h.type.elts if isinstance(h.type, ast.Tuple) else [h.type]):
+                names.add(ast.unparse(t).split(".")[-1])
+        if names & {"Exception", "BaseException", "AttributeError", "TypeError", "ValueError"}:
+            return n
+        tail = []
+        body = list(n.body)
+        while len(body) > 1 and isinstance(body[-1], ast.Assign) and len(body[-1].targets) == 1 and isinstance(body[-1].targets[0], ast.Attribute) \
+                and isinstance(body[-1].targets[0].value, ast.Name) and body[-1].targets[0].value.id != "self" and isinstance(body[-1].value, ast.Constant):
+            tail.insert(0, body.pop())
+        if tail:
+            n.body = body
+            n.orelse = tail
+        return n
+
+
+class BindMethods(ast.NodeTransformer):
+    """in a method with a for loop: every `self.m(...)` call of a method m of the same class inside the loop goes through a
+    local bound before the loop (`m_ = self.m`)"""
+
+    def visit_ClassDef(self, c):
+        self.methods = {m.name for m in c.body if isinstance(m, ast.FunctionDef)}
+        self.props = {m.name for m in c.body if isinstance(m, ast.FunctionDef) and m.decorator_list}
+        self.generic_visit(c)
+        return c
+
+    def visit_FunctionDef(self, f):
+        if not getattr(self, "methods", None) or not f.args.args or f.args.args[0].arg != "self" or f.decorator_list:
+            return f
+        used = {n.id for n in ast.walk(f) if isinstance(n, ast.Name)}
+        new_body = []
+        for st in f.body:
+            if isinstance(st, ast.For):
+                names = {}
+                for n in ast.walk(st):
+                    if isinstance(n, ast.Call) and isinstance(n.func, ast.Attribute) and isinstance(n.func.value, ast.Name) and n.func.value.id == "self" \
+                            and n.func.attr in self.methods and n.func.attr not in self.props and not any(isinstance(x, (ast.Lambda, ast.FunctionDef)) for x in ast.walk(st)):
+                        loc = n.func.attr + "_b"
+                        if loc in used:
+                            continue
+                        names[n.func.attr] = loc
+                        n.func = ast.Name(id=loc, ctx=ast.Load())
+                for m, loc in names.items():
+                    new_body.append(ast.Assign(targets=[ast.Name(id=loc, ctx=ast.Store())], value=ast.Attribute(value=ast.Name(id="self", ctx=ast.Load()), attr=m, ctx=ast.Load())))
+            new_body.append(st)
+        f.body = new_body
+        return f
+
+
 def hoist_attrs(trees):
     """in every method: `self.<attr>` that is bound only in __init__ (never rebound anywhere in the program) and read at least
     twice is read once into a local at the top of the method (an alias of the same object)"""
@@ -409,6 +521,15 @@ def make(kind, dst):
     elif kind == "match":
         for p, t in trees.items():
             trees[p] = ToMatch().visit(t)
+    elif kind == "walrus":
+        for p, t in trees.items():
+            trees[p] = Walrus().visit(t)
+    elif kind == "tryelse":
+        for p, t in trees.items():
+            trees[p] = TryElse().visit(t)
+    elif kind == "bindmethods":
+        for p, t in trees.items():
+            trees[p] = BindMethods().visit(t)
     elif kind == "hoist":
         hoist_attrs(trees)
     elif kind == "methods":
@@ -425,7 +546,7 @@ def make(kind, dst):
 
 
 def main():
-    kinds = sys.argv[1:] or ["unparse", "locals", "invert", "splitand", "methods", "attrs", "flags", "whiletrue", "guard", "ternary", "augassign", "format", "percent", "continue", "elsereturn", "flipcmp", "hoist", "match"]
+    kinds = sys.argv[1:] or ["unparse", "locals", "invert", "splitand", "methods", "attrs", "flags", "whiletrue", "guard", "ternary", "augassign", "format", "percent", "continue", "elsereturn", "flipcmp", "hoist", "match", "walrus", "tryelse", "bindmethods"]
     bad = 0
     for kind in kinds:
         tmp = tempfile.mkdtemp(prefix=f"pyrtma-mech-{kind}-")
